@@ -1506,15 +1506,26 @@ impl Service {
 
         // We never update connection direction if a node already exists in the routing table as we
         // don't want to promote the direction from incoming to outgoing.
+        //
+        // The session may have been dialled with a record that is older than the one stored by
+        // now (the table can learn a newer record while the request is in flight). A stored
+        // record is never replaced with an older one.
         let key = kbucket::Key::from(node_id);
-        let direction = match self
-            .kbuckets
-            .read()
-            .get_bucket(&key)
-            .map(|bucket| bucket.get(&key))
-        {
-            Some(Some(node)) => node.status.direction,
-            _ => connection_direction,
+        let newest = |stored: &Enr, enr: Enr| {
+            if stored.seq() > enr.seq() {
+                stored.clone()
+            } else {
+                enr
+            }
+        };
+        let (direction, enr) = match self.kbuckets.write().entry(&key) {
+            kbucket::Entry::Present(entry, status) => {
+                (status.direction, newest(entry.value(), enr))
+            }
+            kbucket::Entry::Pending(entry, _) => {
+                (connection_direction, newest(entry.value(), enr))
+            }
+            _ => (connection_direction, enr),
         };
 
         debug!(node = %node_id, %direction, %socket, "Session established with Node");
